@@ -273,6 +273,108 @@ def fault_cases():
             yield kind, s
 
 
+# --- generated semantic faults -----------------------------------------------------------
+
+FUNC_VARS = {"f": ["a", "b", "x", "y"], "g": ["y", "r"], "h": ["n", "t", "i"], "K.meth": ["self", "z", "w"],
+             "obj.meth": ["z", "w"]}
+BAD_METAS = ["#foo", "#values", "#enterr", "#val", "#loop", "#Value", "#errors", "#exit_", "#yields", "#"]
+BAD_FUNCS = ["nosuch", "f.nosuch", "K.nosuch", "nosuch.attr", "obj.nosuch", "N.real_", "G"]
+BAD_CATS = ["N", "g", "s", "lt", "K", "obj"]
+
+
+def fault_strategy():
+    """(base IR valid against ENV, fault kind, faulty IR-or-text builder)."""
+    from hypothesis import strategies as st
+
+    @st.composite
+    def gen(draw):
+        k = [0]
+
+        def alias():
+            k[0] += 1
+            return f"q{k[0]}"
+
+        def node(depth):
+            fn = draw(st.sampled_from(list(FUNC_VARS)))
+            caps = []
+            for _ in range(draw(st.integers(0, 3))):
+                kind = draw(st.sampled_from(["var", "var", "var", "generic", "meta", "star"]))
+                if kind == "var":
+                    caps.append(G.Cap(draw(st.sampled_from(FUNC_VARS[fn])), alias(), None, None, "=", 0))
+                elif kind == "generic":
+                    caps.append(G.Cap(None, alias(), None, None, "=", 0))
+                elif kind == "star":
+                    caps.append(G.Cap(None, None, None, None, "=", 0))
+                else:
+                    caps.append(G.Cap(draw(st.sampled_from(["#enter", "#exit", "#value", "#error"])), alias(),
+                                      None, None, "=", 0))
+            children = []
+            if depth < 3:
+                for _ in range(draw(st.integers(0, 2 if depth == 1 else 1))):
+                    children.append(node(depth + 1))
+            return G.CallN(fn, None, tuple(caps), tuple(children))
+
+        base = node(1)
+        nodes = [n for _, n in _walk(base)]
+        # put the focus on a random node
+        fi = draw(st.integers(0, len(nodes) - 1))
+        fnode = nodes[fi]
+        fvar = draw(st.sampled_from(FUNC_VARS[fnode.fn] + ["#value"]))
+        fc = G.Cap(fvar, alias(), None, None, "=", 1)
+        pos = draw(st.integers(0, len(fnode.caps)))
+        base = _replace_node(base, fnode, fnode._replace(caps=fnode.caps[:pos] + (fc,) + fnode.caps[pos:]))
+        kind = draw(st.sampled_from(["meta", "category", "function", "focus2", "nofocus-override"]))
+        nodes = [n for _, n in _walk(base)]
+        tgt = nodes[draw(st.integers(0, len(nodes) - 1))]
+        if kind == "meta":
+            bad = G.Cap(draw(st.sampled_from(BAD_METAS)), alias() if draw(st.booleans()) else None, None, None, "=", 0)
+            at = draw(st.integers(0, len(tgt.caps)))
+            faulty = _replace_node(base, tgt, tgt._replace(caps=tgt.caps[:at] + (bad,) + tgt.caps[at:]))
+        elif kind == "category":
+            cat = draw(st.sampled_from(BAD_CATS))
+            if tgt.caps and draw(st.booleans()):
+                at = draw(st.integers(0, len(tgt.caps) - 1))
+                c = tgt.caps[at]._replace(tag="!" + cat)
+                faulty = _replace_node(base, tgt, tgt._replace(caps=tgt.caps[:at] + (c,) + tgt.caps[at + 1:]))
+            else:
+                faulty = _replace_node(base, tgt, tgt._replace(fntag="!" + cat))
+        elif kind == "function":
+            faulty = _replace_node(base, tgt, tgt._replace(fn=draw(st.sampled_from(BAD_FUNCS))))
+        elif kind == "focus2":
+            def to2(n):
+                return n._replace(caps=tuple(c._replace(focus=2) if c.focus == 1 else c for c in n.caps),
+                                  children=tuple(to2(ch) for ch in n.children))
+            faulty = to2(base)
+        else:
+            def nof(n):
+                return n._replace(caps=tuple(c._replace(focus=0) if c.focus == 1 else c for c in n.caps),
+                                  children=tuple(nof(ch) for ch in n.children))
+            faulty = nof(base)
+        choices = draw(st.lists(st.integers(0, 3), max_size=10))
+        return base, kind, faulty, choices
+
+    return gen()
+
+
+def _walk(n, chain=()):
+    chain = chain + (n,)
+    yield chain, n
+    for ch in n.children:
+        yield from _walk(ch, chain)
+
+
+def _replace_node(root, old, new):
+    if root is old:
+        return new
+    return root._replace(children=tuple(_replace_node(ch, old, new) for ch in root.children))
+
+
+def _render_fault(ir, choices):
+    # a tag spelled "!N" stands for a *non-tag* category: rendered ':N' instead of ':@N'
+    text = G.render(ir, choices, [1] * 4) if choices else G.canonical(ir)
+    return text.replace(":@!", ":")
+
+
 # --- shards -----------------------------------------------------------------------------
 
 
@@ -294,7 +396,7 @@ def plan(tier, seed, scale):
     cfgs.append({"mode": "short"})
     n = 16
     for i in range(n):
-        cfgs.append({"mode": "hyp", "examples": int((1500 if tier == "quick" else 60000) * scale)})
+        cfgs.append({"mode": "hyp", "examples": int((2500 if tier == "quick" else 60000) * scale)})
     return cfgs
 
 
@@ -349,7 +451,7 @@ def shard(cfg):
         ir_s, ch_s = G.strategies(max_depth=3, max_width=2)
         # names bound in ENV so that many mutants survive to select/activation
         mut = st.lists(
-            st.tuples(st.sampled_from(["del", "dup", "swap", "ins", "rep"]), st.integers(0, 60),
+            st.tuples(st.sampled_from(["del", "dup", "swap", "ins", "rep", "wrap", "wrap", "comma"]), st.integers(0, 60),
                       st.sampled_from(ALPHABET)),
             min_size=1, max_size=3,
         )
@@ -360,6 +462,7 @@ def shard(cfg):
         )
         charset = "fgxa>(),!$:=~#@*'. \nNKs3-/[]{}%\\\"as"
         strat = st.one_of(
+            st.tuples(st.just("fault"), fault_strategy(), st.just(None), st.just(None), st.just(None)),
             st.tuples(st.just("mut-ir"), ir_s, ch_s, ch_s, mut),
             st.tuples(st.just("mut-valid"), base_valid, st.just(None), ch_s, mut),
             st.tuples(st.just("raw"), st.text(alphabet=charset, max_size=40), st.just(None), st.just(None),
@@ -394,20 +497,46 @@ def shard(cfg):
                     toks[i], toks[j] = toks[j], toks[i]
                 elif op == "ins":
                     toks.insert(i, tok)
+                elif op == "wrap":
+                    j = min(len(toks), i + 1 + (ALPHABET.index(tok) % 5))
+                    toks[i:j] = ["("] + toks[i:j] + [")"]
+                elif op == "comma":
+                    toks.insert(i, ",")
+                    toks.insert(i, tok)
                 else:
                     toks[i] = tok
             return "".join(toks)
 
         def body(case):
-            s = build(case)
             rec.count("kind:" + case[0])
+            if case[0] == "fault":
+                base, kind, faulty, choices = case[1]
+                bt = _render_fault(base, choices)
+                if guarded(bt, None, only_plain=True) != "valid":
+                    rec.count("fault-base-not-valid")
+                    return
+                kw = {"must_refuse": True}
+                if kind == "nofocus-override":
+                    kw["overridable_only"] = True
+                rec.count("generated-fault:" + kind)
+                guarded(_render_fault(faulty, choices), rec, **kw)
+                return
+            s = build(case)
             guarded(s, rec)
 
         n, v, herr = hyp_search(strat, body, seed=cfg["seed"] * 1000 + cfg["shard"],
                                 max_examples=cfg["examples"])
         if v is not None:
-            s = build(v.case)
-            viol[v.extra.get("bucket", v.clause)] = violation_record(PROPERTY, v, {"string": s, "kw": {}})
+            if v.case[0] == "fault":
+                base, kind, faulty, choices = v.case[1]
+                s = _render_fault(faulty, choices)
+                kw = {"must_refuse": True}
+                if kind == "nofocus-override":
+                    kw["overridable_only"] = True
+            else:
+                s = build(v.case)
+                kw = {}
+            viol[v.extra.get("bucket", v.clause)] = violation_record(PROPERTY, v, {"string": s, "kw": kw})
         res = rec.result()
         res["violations"] = list(viol.values())
         if herr:
